@@ -1,6 +1,7 @@
 package main
 
 import (
+	"reflect"
 	"bytes"
 	"crypto/sha256"
 	"encoding/hex"
@@ -231,14 +232,14 @@ var c18fileSeq int64
 
 type c18svc struct{ name, suite, pub, priv string }
 
-func c18svcOps(m []c18svc, okOf func(suiteOfService, pub string) bool) string {
+func c18svcOps(m []c18svc, okOf func(service, label, pub string) bool) string {
 	if len(m) == 0 {
 		return "-"
 	}
 	sort.Slice(m, func(i, j int) bool { return m[i].name < m[j].name })
 	var l []string
 	for _, s := range m {
-		l = append(l, fmt.Sprintf("%s:%s:%s:%s:%s", c18hex(s.name), c18hex(s.suite), c18hex(s.pub), c18b(okOf(s.name, s.pub)), c18hex(s.priv)))
+		l = append(l, fmt.Sprintf("%s:%s:%s:%s:%s", c18hex(s.name), c18hex(s.suite), c18hex(s.pub), c18b(okOf(s.name, s.suite, s.pub)), c18hex(s.priv)))
 	}
 	return strings.Join(l, ",")
 }
@@ -271,10 +272,16 @@ func c18pointOK(suiteName, pub string) bool {
 	return p.UnmarshalBinary(b) == nil
 }
 
-func c18svcPointOK(svc, pub string) bool {
+// c18svcPointOK: is the text a point of the service's suite? For a service that is not registered
+// (the reader skips it; the model never looks at the answer) the suite named in the file is taken, so
+// that the answer does not depend on when it is asked.
+func c18svcPointOK(svc, label, pub string) bool {
 	s := onet.ServiceFactory.Suite(svc)
 	if s == nil {
-		return false
+		if label == "" {
+			return false
+		}
+		return c18pointOK(label, pub)
 	}
 	return c18pointOK(s.String(), pub)
 }
@@ -341,6 +348,12 @@ func c18exec(c *h.Ctx, cs *h.Case) {
 	text, haveText := "", false
 	var lastHC *app.CothorityConfig // what the last `private` op loaded, and what it read
 	lastPrivate := ""
+	lastSaved := "" // the file the last `resave` wrote
+	defer func() {
+		if lastSaved != "" {
+			os.Remove(lastSaved)
+		}
+	}()
 	var expect []string // the server ops the text must decode to
 	var outs []string
 	// registry history: what every text read as last time, and which services were (un)registered since
@@ -574,6 +587,19 @@ func c18exec(c *h.Ctx, cs *h.Case) {
 				os.Remove(file2)
 				break
 			}
+			// oracle: what Save writes after the configuration was loaded and looked at is what was loaded -
+			// every field and every service table, whether or not its service is registered in this process
+			if content, err := ioutil.ReadFile(file2); err == nil {
+				orig, saved := &app.CothorityConfig{}, &app.CothorityConfig{}
+				_, e1 := toml.Decode(text, orig)
+				_, e2 := toml.Decode(string(content), saved)
+				if orig.Suite == "" {
+					orig.Suite = "Ed25519"
+				}
+				if e1 == nil && (e2 != nil || !reflect.DeepEqual(orig, saved)) {
+					cs.Fail("save-loses-content", fmt.Sprintf("the configuration saved after a read is not the configuration that was loaded (%v):\nloaded %+v\nsaved  %+v", e2, *orig, *saved))
+				}
+			}
 			second, _ := c18readPrivate(file2)
 			if strings.HasPrefix(second, "io-error") || second == "load-err" {
 				if _, err := os.Stat(file2); err != nil { // work directory swept by a concurrent run
@@ -596,9 +622,32 @@ func c18exec(c *h.Ctx, cs *h.Case) {
 				}
 				cs.Fail("save-over-existing", fmt.Sprintf("a configuration saved to a path that held %q content reads back differently:\nloaded %s\nreread %s\nend of the file: %q", tk[2], lastPrivate, second, tail))
 			}
-			os.Remove(file2)
+			if lastSaved != "" {
+				os.Remove(lastSaved)
+			}
+			lastSaved = file2 // kept for `reload`
 			obs = second
 			outs = append(outs, "resave-"+tk[2]+":"+c18class(second))
+		case len(tk) == 3 && tk[1] == "reload":
+			// the file written by the last resave, read again - possibly by a process (here: a registry)
+			// that knows services the saving one did not
+			n, _ := strconv.Atoi(tk[2])
+			if lastSaved == "" || lastHC == nil || n < 1 {
+				break
+			}
+			if _, err := os.Stat(lastSaved); err != nil { // work directory swept by a concurrent run
+				os.MkdirAll(filepath.Dir(lastSaved), 0700)
+				lastHC.Save(lastSaved)
+			}
+			first, _ := c18readPrivate(lastSaved)
+			for i := 1; i < n; i++ {
+				if d, _ := c18readPrivate(lastSaved); d != first {
+					cs.Fail("parses-disagree", fmt.Sprintf("read %d of the saved private configuration differs from read 1:\n%s\n%s", i+1, first, d))
+					break
+				}
+			}
+			obs = first
+			outs = append(outs, "reload:"+c18class(first))
 		}
 		cs.Impl = append(cs.Impl, obs)
 	}
@@ -1098,6 +1147,7 @@ func c18generate(c *h.Ctx, yield func(*h.Case)) {
 				onet.UnregisterService(nme)
 			}
 		}()
+		extra := fmt.Sprintf("c18t%dxnew", churnSeq)
 		victim := 2 + g.r.Intn(5) // unregistered in the middle of the batch: not the first, not the last
 		var used []int
 		for i := victim + 1; i < k; i++ {
@@ -1134,6 +1184,9 @@ func c18generate(c *h.Ctx, yield func(*h.Case)) {
 				ks := g.key(sus[i])
 				txt += fmt.Sprintf("[Services.%s]\n  Public = \"%s\"\n  Private = \"%s\"\n  Suite = \"%s\"\n", names[i], ks.pub, ks.priv, sus[i])
 			}
+			// … and a key pair for a service that is registered only later (by another process, as it were)
+			kx := g.key("P256")
+			txt += fmt.Sprintf("[Services.%s]\n  Public = \"%s\"\n  Private = \"%s\"\n  Suite = \"P256\"\n", extra, kx.pub, kx.priv)
 			op, ok := c18privateOp(txt, 2, false)
 			if !ok {
 				return
@@ -1141,12 +1194,20 @@ func c18generate(c *h.Ctx, yield func(*h.Case)) {
 			cs.Ops = append(cs.Ops, "c18 text "+c18hex(txt))
 			readOp = op
 		}
-		extra := fmt.Sprintf("c18t%dxnew", churnSeq)
-		cs.Ops = append(cs.Ops, readOp,
+		cs.Ops = append(cs.Ops, readOp)
+		if private {
+			// load, look at the identity, save unchanged - the service `extra` is unknown so far
+			cs.Ops = append(cs.Ops, "c18 resave "+c18histories[churnSeq%len(c18histories)]+" 2", "c18 reload 2")
+		}
+		cs.Ops = append(cs.Ops,
 			"c18 regdel "+c18hex(names[victim]), readOp,
 			fmt.Sprintf("c18 regadd %s %s", c18hex(extra), c18hex("P256")), readOp,
 			"c18 regdel "+c18hex(names[1]), "c18 regdel "+c18hex(names[0]), readOp,
 			reg(victim), readOp)
+		if private {
+			// what was saved before `extra` was known is read now that it is
+			cs.Ops = append(cs.Ops, "c18 reload 2", "c18 resave inplace 2", "c18 reload 2")
+		}
 		// leave the registry as it was
 		for i := range names {
 			cs.Ops = append(cs.Ops, "c18 regdel "+c18hex(names[i]))
